@@ -147,6 +147,9 @@ type uEnv struct {
 	nextRC  []byte
 	pacing  *pacing.InterceptorFactory
 	nowire   bool
+	failInjected bool // the transport-side RTCP writer fails every write the chain originates
+	statsGetter stats.Getter
+	okW, okR    map[uint32]int // successful application writes / reads per SSRC
 	quiet    bool  // collect emissions only, log nothing
 	scribble bool  // overwrite caller-owned buffers as soon as a call has returned
 	emis     []vfM // everything the chain emitted or recorded that derives from packet contents
@@ -254,7 +257,12 @@ func (e *uEnv) factory(m uMember) (interceptor.Factory, error) { //nolint:cyclop
 	case "rtpfb":
 		return rtpfb.NewInterceptor()
 	case "stats":
-		return stats.NewInterceptor()
+		f, err := stats.NewInterceptor()
+		if err == nil {
+			f.OnNewPeerConnection(func(_ string, g stats.Getter) { e.statsGetter = g })
+		}
+
+		return f, err
 	case "pdrecv":
 		return packetdump.NewReceiverInterceptor(packetdump.RTPWriter(e.dump), packetdump.RTCPWriter(e.dump),
 			packetdump.RTPBinaryFormatter(e.dumpRTP))
@@ -400,6 +408,13 @@ func (e *uEnv) wireRTCP() interceptor.RTCPWriter {
 		e.mu.Lock()
 		defer e.mu.Unlock()
 		app := len(pkts) > 0 && e.curRTCP != nil && pkts[0] == e.curRTCP
+		if !app && e.failInjected {
+			if !e.quiet && !e.nowire {
+				e.out.Emit(vfM{"a": "wire", "t": "rtcp", "s": 0, "app": false, "failed": true, "closed": e.closed, "pkt": vfM{}, "sum": uSumRTCP(pkts)})
+			}
+
+			return 0, errUInner
+		}
 		if app && e.failNow {
 			if !e.quiet {
 				e.out.Emit(vfM{"a": "wire", "t": "rtcp", "s": 0, "app": true, "failed": true, "closed": e.closed, "pkt": vfM{}, "sum": uSumRTCP(pkts)})
@@ -562,7 +577,8 @@ func uInfo(st *uStep) *interceptor.StreamInfo {
 
 func uRun(t *testing.T, sc *uScript, out *vfWriter, scribble, quiet bool) []vfM { //nolint:gocognit,cyclop,maintidx
 	t.Helper()
-	e := &uEnv{t: t, out: out, dump: &uSyncBuf{}, nextRTP: map[uint32][]byte{}, scribble: scribble, quiet: quiet, nowire: sc.NoWire}
+	e := &uEnv{t: t, out: out, dump: &uSyncBuf{}, nextRTP: map[uint32][]byte{}, scribble: scribble, quiet: quiet, nowire: sc.NoWire,
+		okW: map[uint32]int{}, okR: map[uint32]int{}}
 	kinds := []string{}
 	reg := &interceptor.Registry{}
 	for _, m := range sc.Members {
@@ -709,6 +725,18 @@ func uRun(t *testing.T, sc *uScript, out *vfWriter, scribble, quiet bool) []vfM 
 			}
 			h, pl := vfMakePacket(st.S, st.W, st.ID, st.Len, st.Shape)
 			h.PayloadType = 96
+			var hdrRaw []byte
+			if e.scribble && e.quiet {
+				// the application parsed this header out of its own receive buffer: CSRC and extension payloads
+				// of the parsed header point into that buffer, which it reuses after the call
+				if raw, merr := h.Marshal(); merr == nil {
+					h2 := &rtp.Header{}
+					if _, uerr := h2.Unmarshal(raw); uerr == nil {
+						h2.PaddingSize = h.PaddingSize
+						h, hdrRaw = h2, raw
+					}
+				}
+			}
 			if !e.nowire {
 				ev["pkt"] = vfPkt(h, pl)
 			}
@@ -730,6 +758,11 @@ func uRun(t *testing.T, sc *uScript, out *vfWriter, scribble, quiet bool) []vfM 
 				w = []vfM{}
 			}
 			ev["n"], ev["err"], ev["wire"] = n, uErrClass(werr), w
+			if werr == nil && !blocked {
+				e.mu.Lock()
+				e.okW[st.S]++
+				e.mu.Unlock()
+			}
 			if e.scribble { // the caller reuses its buffers immediately (C13)
 				for i := range pl {
 					pl[i] = 0xEE
@@ -740,6 +773,9 @@ func uRun(t *testing.T, sc *uScript, out *vfWriter, scribble, quiet bool) []vfM 
 				}
 				for i := range h.Extensions {
 					h.Extensions[i] = rtp.Extension{}
+				}
+				for i := range hdrRaw {
+					hdrRaw[i] = 0xEE
 				}
 			}
 		case "wrtcp":
@@ -822,6 +858,11 @@ func uRun(t *testing.T, sc *uScript, out *vfWriter, scribble, quiet bool) []vfM 
 			e.mu.Unlock()
 			ev["n"], ev["err"], ev["len"] = n, uErrClass(rerr), len(rawb)
 			ev["same"] = n <= len(buf) && n >= 0 && bytes.Equal(buf[:min(n, len(buf))], rawb)
+			if rerr == nil && !blocked {
+				e.mu.Lock()
+				e.okR[st.S]++
+				e.mu.Unlock()
+			}
 			if e.scribble && e.quiet && !blocked {
 				for i := range buf {
 					buf[i] = 0xEE
@@ -892,6 +933,24 @@ func uRun(t *testing.T, sc *uScript, out *vfWriter, scribble, quiet bool) []vfM 
 			ev["same"] = n <= len(buf) && n >= 0 && bytes.Equal(buf[:min(n, len(buf))], rawb)
 		case "wait":
 			time.Sleep(time.Duration(st.Ms) * time.Millisecond)
+		case "failw": // C11: the RTCP writer starts (ms != 0) / stops failing for feedback the chain writes itself
+			e.mu.Lock()
+			e.failInjected = st.Ms != 0
+			e.mu.Unlock()
+		case "stats": // C10: conservation of the statistics counters (n = PacketsSent, len = PacketsReceived of SSRC s)
+			if e.statsGetter == nil {
+				ev["skipped"] = true
+
+				break
+			}
+			if g := e.statsGetter.Get(st.S); g != nil {
+				ev["n"], ev["len"] = int(g.OutboundRTPStreamStats.PacketsSent), int(g.InboundRTPStreamStats.PacketsReceived)
+			} else {
+				ev["skipped"] = true
+			}
+			e.mu.Lock()
+			ev["nums"] = []int{e.okW[st.S], e.okR[st.S]}
+			e.mu.Unlock()
 		case "heap": // C12: live heap after forced collection
 			time.Sleep(time.Duration(st.Ms) * time.Millisecond)
 			if st.Kind == "final" { // the application drops the closed interceptor: everything it held must become collectable
